@@ -137,8 +137,10 @@ Definition exp_upstreamProcsForProc : list stm :=
 Definition exp_collectUpstreamProcs : list stm :=
   [SFunc "visit" [SIf "seen" [SReturn ""] []; SAssign "procs[upProc.Name()]"; SCall "collectUpstreamProcs"]; SRange "proc.InPorts()" [SRange "inp.RemotePorts" [SCall "visit"]]; SRange "proc.InParamPorts()" [SRange "pip.RemotePorts" [SCall "visit"]]].
 
+(* after the repair of D19: a streaming IP that reaches the sink has its FIFO drained by a goroutine of its own, which the
+   sink does not wait for (the receive loop, the close protocol and what Run waits for are as before) *)
 Definition exp_Sink_Run : list stm :=
-  [SIf "p.in().Ready()" [SGo (SBlock [SRange "p.in().Chan" []; SSend "merged"])] []; SIf "p.paramIn().Ready()" [SGo (SBlock [SRange "p.paramIn().Chan" []; SSend "merged"])] []; SIf "p.in().Ready()" [SRecv "merged"] []; SIf "p.paramIn().Ready()" [SRecv "merged"] []; SClose "merged"].
+  [SIf "p.in().Ready()" [SGo (SBlock [SRange "p.in().Chan" [SIf "ip.doStream" [SGo (SCall "drainFifo")] []]; SSend "merged"])] []; SIf "p.paramIn().Ready()" [SGo (SBlock [SRange "p.paramIn().Chan" []; SSend "merged"])] []; SIf "p.in().Ready()" [SRecv "merged"] []; SIf "p.paramIn().Ready()" [SRecv "merged"] []; SClose "merged"].
 
 Definition exp_Fail : list stm :=
   [SFail].
